@@ -20,7 +20,7 @@ ASSUMPTIONS = [
     'pointwise evaluations: non-negativity is judged against 1e-15 times the largest value seen for that element in the sweep',
 ]
 REQUIRED = {t: ['event:bilform-acausal', 'event:bilform-causal', 'event:bilform-time-touch', 'path:inline', 'path:serial', 'path:pool',
-                'matrix:rectangular', 'matrix:asymmetric-pair-seen', 'call:test-list-only', 'eval:evaluate', 'eval:evaluate_exact', 'eval:potential', 'eval:t-shortly-after-start',
+                'matrix:rectangular', 'matrix:asymmetric-pair-seen', 'call:test-list-only', 'eval:evaluate', 'eval:evaluate_exact', 'eval:potential', 'eval:t-shortly-after-start', 'scale:tiny-time-step-at-late-time',
                 'eval:t-at-start', 'eval:t-at-end', 'eval:t-before-start', 'switch:exact', 'switch:quad', 'event:tiny-positive',
                 'curve:UnitSquare', 'curve:PiSquare', 'curve:LShape', 'curve:Circle', 'curve:UnitInterval', 'source:repo-test-suite', 'source:driver']
             for t in ('quick', 'thorough')}
@@ -242,6 +242,38 @@ def tiny_pairs(acc, SL, mesh, geo, rng, curve, wit0, exact, judge_entry, log):
         te, tr = dummy(test_t[0], test_t[1], x0, x1), dummy(trial_t[0], trial_t[1], y0, y1)
         val = SL.bilform(tr, te)
         log.take()
+        judge_entry(float(val), te, tr, 'bilform-synthetic', exact)
+    # very short time steps (time level 17-40) away from t = 0: lags that are tiny relative to the absolute time (1e-5 .. 1e-12 of it),
+    # elements close together so that the exact value is far above the underflow range
+    for _ in range(40):
+        kt = rng.randint(17, 40)
+        ht = 2.0**-kt
+        m = min(25, (kt - 5 + 1) // 2 + rng.randint(0, 2))
+        hx = 2.0**-m
+        if hx * hx / ht > 32:
+            continue
+        p = rng.randrange(len(starts) - 1)
+        plen = starts[p + 1] - starts[p]
+        k = rng.randrange(max(1, min(int(plen / hx) - 3, 2**20)))
+        x0 = starts[p] + k * hx
+        off = rng.choice([0, 0, 1, 2])
+        y0 = x0 + off * hx
+        if y0 + hx > starts[p + 1]:
+            continue
+        t0 = rng.choice([1.0 - 4 * ht, 0.5, 0.75 - ht, 0.25, 1.0 - 2.0**-10])
+        style = rng.choice(['touch', 'equal', 'gap', 'equal'])
+        if style == 'touch':
+            test_t, trial_t = (t0 + ht, t0 + 2 * ht), (t0, t0 + ht)
+        elif style == 'equal':
+            test_t = trial_t = (t0, t0 + ht)
+        else:
+            test_t, trial_t = (t0 + 2 * ht, t0 + 3 * ht), (t0, t0 + ht)
+        if not (test_t[1] - test_t[0] == ht and trial_t[1] - trial_t[0] == ht):
+            continue
+        te, tr = dummy(test_t[0], test_t[1], x0, x0 + hx), dummy(trial_t[0], trial_t[1], y0, y0 + hx)
+        val = SL.bilform(tr, te)
+        log.take()
+        acc.seen('scale:tiny-time-step-at-late-time')
         judge_entry(float(val), te, tr, 'bilform-synthetic', exact)
 
 
